@@ -207,7 +207,10 @@ def r2_case_analysis(P, rep, ctx):
                 return t
 
             okp = ph(m["__p"]) == f"{rv}.path / K" and ph(f.xe_at(i_, bd["__k"])) == f"{rv}.path / K"
-            roles.add((canon(f.x(loop.iter)), (ph(m["__a"]), ph(m["__b"])), b_ if okp else b_ + "(wrong path)"))
+            it_ = f.xe(loop.iter)
+            while isinstance(it_, ast.Call) and isinstance(it_.func, ast.Name) and it_.func.id in ("sorted", "list", "tuple") and len(it_.args) == 1 and not it_.keywords:
+                it_ = it_.args[0]  # the order in which the keys are visited does not matter for the buckets
+            roles.add((canon(norm(it_)), (ph(m["__a"]), ph(m["__b"])), b_ if okp else b_ + "(wrong path)"))
     A_, R_ = f"K({cv}) - K({pv})", f"K({pv}) - K({cv})"
     common = {f"(K({pv}) | K({cv})) - ({A_}) - ({R_})", f"K({pv}) | K({cv}) - ({A_}) - ({R_})", f"K({pv}) & K({cv})", f"K({cv}) & K({pv})", f"K({pv}).intersection(K({cv}))"}
     want_fixed = {
